@@ -66,6 +66,13 @@ def check_maps(c):
         good = good and np.ndim(i1) == 1 and np.array_equal(i1, i)
         if not res.check(good, 'single', dict(c, i=i.tolist()), 'single multi-index differs from the batch'):
             break
+    if c.get('long'):
+        res.ev()
+        L = c['long']
+        idx = np.arange(L) % len(pts)
+        Bl = teneva.ind_tt_to_qtt(pts[idx], n)
+        res.check(np.array_equal(Bl, E[idx]) and np.array_equal(teneva.ind_qtt_to_tt(Bl, q), pts[idx]), 'long_batch', dict(c, rows=L),
+                  'a batch of %d multi-indices is not mapped row by row' % L)
     for bad in (3, 5, 6, 7, 9, 12):
         res.ev()
         try:
@@ -221,7 +228,7 @@ CHECKERS = {'maps': check_maps, 'conv': check_conv, 'alternate': check_alternate
 
 def strata(tier, seed):
     lim = 10 if tier == 'quick' else 12
-    ms = [dict(d=d, q=q) for d in range(1, 13) for q in range(1, 13) if d * q <= lim]
+    ms = [dict(d=d, q=q, long=(40001 if (d, q) in ((2, 3), (3, 2), (1, 5)) else 0)) for d in range(1, 13) for q in range(1, 13) if d * q <= lim]
     yield Stratum('index maps on their complete domain', ms, 'maps', size=len(ms), chunk=1, bounds={'q*d': '<= %d' % lim})
     cs = []
     for d in (1, 2, 3):
